@@ -6,6 +6,21 @@ spec -> code: TLC enumerates the complete state graph of specs/LRUCache.tla for 
 code -> spec: long random histories on the real LRUCache, and compile histories through
               cached_template() / Component rendering under several template_cache_size
               settings, are validated by TLC against Trace_C18 / Trace_C18T.
+
+Component level (TemplateCache.tla: RenderClass / OwnTemplate / NoSharing): the import path (module + qualname) of a
+component class does not identify it - classes made by one factory function and re-executions of one class statement
+share it.  spec -> code: TLC enumerates EVERY sequence of renders / clears over a class table in which several classes
+share a path (MC_C18T CompSpec, every cache size) and exports it with the object, the template it was compiled from and
+the LRU order the specification determines after every step; each sequence is replayed in this process on freshly made
+classes (paths never seen before in the process, so the render ORDER of the sequence is what counts) and every render
+must print what a fresh compilation of that class' own template prints.  code -> spec: the component histories for
+Trace_C18T are rendered over such class tables too (paths there are drawn from a small pool that is reused across
+traces, i.e. redefinition over time).
+Left out on purpose: two classes with the SAME template text - whether they share a cache entry / a Template object
+is not determined by the property text (rendered output is the same either way), so all classes of one table have
+pairwise different templates and the LRU order is compared by template text only (the cache key layout is free).
+Components are rendered with render_dependencies=False: the JS/CSS dependency machinery (also keyed by import path)
+is not part of this property.
 """
 from __future__ import annotations
 
@@ -19,6 +34,8 @@ from .core import Check, MachineryError, workdir
 
 PID = "C18"
 SIZES = [None, 0, 1, 2, 3]
+# class tables of MC_C18T (name of the definition -> import path number of class 1, 2, ...)
+TABLES = {"P11": [1, 1], "P1112": [1, 1, 1, 2], "P1122": [1, 1, 2, 2], "P11122": [1, 1, 1, 2, 2]}
 
 
 def _cfg(path: Path, spec: str, keys: str, vals: str, maxsize: Optional[int], extra: str = "") -> None:
@@ -197,6 +214,172 @@ def validate_lru_traces(chk: Check, ntraces: int, length: int) -> None:
     chk.add("traces_validated_against_impl", total)
 
 
+# ---------------------------------------------------------------- component classes sharing an import path
+def class_src(s: int) -> str:
+    """Inline template number s (pairwise different texts)."""
+    return f"[t{s}:{{{{ x }}}}]"
+
+
+def make_classes(table, tag: str):
+    """Real component classes for a class table [{path, src}, ...]: classes of one path have the same __module__ and
+    __qualname__ - odd paths come from ONE factory function called once per class, even paths from ONE module-level
+    class statement executed once per class (as in a shell / notebook / reloaded module).  `tag` makes the paths
+    distinct from (or equal to) those of other tables made in this process."""
+    from django_components import Component
+    from django_components.util.misc import get_import_path
+    made, factories = [], {}
+    for ent in table:
+        path, markup = ent["path"], class_src(ent["src"])
+        if path % 2:
+            fn = f"make_{tag}_{path}"
+            if fn not in factories:
+                ns = {"Component": Component, "__name__": __name__}
+                exec(f"def {fn}(markup):\n"
+                     "    class Badge(Component):\n"
+                     "        template = markup\n"
+                     "        def get_context_data(self, x=None):\n"
+                     "            return {'x': x}\n"
+                     "    return Badge\n", ns)
+                factories[fn] = ns[fn]
+            cls = factories[fn](markup)
+        else:
+            ns = {"Component": Component, "__name__": __name__, "markup": markup}
+            exec(f"class Badge_{tag}_{path}(Component):\n"
+                 "    template = markup\n"
+                 "    def get_context_data(self, x=None):\n"
+                 "        return {'x': x}\n", ns)
+            cls = ns[f"Badge_{tag}_{path}"]
+        made.append(cls)
+    for i, a in enumerate(made):
+        for j, b in enumerate(made):
+            if (get_import_path(a) == get_import_path(b)) != (table[i]["path"] == table[j]["path"]) or (i != j and a is b):
+                raise MachineryError("class table not realised: import paths do not match the table")
+    return made
+
+
+def render_class(cls, x: int):
+    """Render component class `cls`; returns (output without the bookkeeping comment, Template object used)."""
+    import re
+    import django_components.component as dcomp
+    seen = []
+    orig = dcomp.cached_template
+
+    def spy(*a, **kw):
+        t = orig(*a, **kw)
+        seen.append(t)
+        return t
+    dcomp.cached_template = spy
+    try:
+        out = cls.render(kwargs={"x": x}, render_dependencies=False)
+    finally:
+        dcomp.cached_template = orig
+    if len(seen) != 1:
+        raise MachineryError(f"expected one cached_template call per render, saw {len(seen)}")
+    return re.sub(r"<!--.*?-->", "", out), seen[0]
+
+
+def _src_order(table) -> List[int]:
+    """Forward walk of the real template cache, every entry mapped to the template number of its text."""
+    import django_components.cache as dcache
+    p = project(dcache.get_template_cache())
+    if p["bad"]:
+        return [-1]
+    index = {class_src(ent["src"]): ent["src"] for ent in table}
+    out = []
+    for k in p["fwd"]:
+        texts = [m for m in (k if isinstance(k, tuple) else (k,)) if isinstance(m, str) and m in index]
+        out.append(index[texts[0]] if len(texts) == 1 else -2)
+    return out
+
+
+def replay_class_case(row, caseno: int) -> Optional[Dict[str, Any]]:
+    """Replay one exported render sequence on fresh real classes; None if it conforms."""
+    from django.conf import settings
+    from django.template import Context, Template
+    import django_components.cache as dcache
+    old = settings.COMPONENTS
+    table = row["classes"]
+    try:
+        settings.COMPONENTS = dict(old, template_cache_size=row["max"])
+        dcache.template_cache = None
+        classes = make_classes(table, f"q{row['max']}_{caseno}")
+        ids: Dict[int, int] = {}
+        keep = []
+        for i, st in enumerate(row["steps"]):
+            if st["op"] == "clear":
+                dcache.get_template_cache().clear()
+                fwd = _src_order(table)
+                if fwd:
+                    return {"step": i + 1, "what": "clear_left_entries", "observed": fwd}
+                continue
+            x = (caseno * 7 + i * 13) % 100
+            try:
+                out, t = render_class(classes[st["c"] - 1], x)
+            except MachineryError:
+                raise
+            except Exception as e:  # noqa: BLE001 - the specification never raises
+                return {"step": i + 1, "what": "exception", "observed": f"{type(e).__name__}: {e}"[:300]}
+            keep.append(t)
+            oid = ids.setdefault(id(t), len(ids) + 1)
+            want_src = class_src(st["src"])                 # the template the specification's object was made from
+            fresh = Template(want_src).render(Context({"x": x}))
+            fwd = _src_order(table)
+            failing = [c for c, bad in [("transparent", out != fresh or t.source != want_src),
+                                        ("identity", oid != st["obj"]),
+                                        ("lru_order", fwd != st["fwd"])] if bad]
+            if failing:
+                return {"step": i + 1, "what": failing,
+                        "expected": {"out": fresh, "source": want_src, "obj": st["obj"], "fwd": st["fwd"]},
+                        "observed": {"out": out[:200], "source": t.source[:200], "obj": oid, "fwd": fwd}}
+        return None
+    finally:
+        settings.COMPONENTS = old
+        dcache.template_cache = None
+
+
+def component_classes(chk: Check, table: str, maxlen: int, sizes=(0, 1, 2, 128)) -> None:
+    """All render/clear sequences of length `maxlen` over class table `table` (MC_C18T), every size: exported by TLC
+    with the outcome the specification determines, replayed on real factory-made / re-defined classes."""
+    from concurrent.futures import ThreadPoolExecutor
+    w = workdir("c18cc")
+    nclasses = len(TABLES[table])
+
+    def one(ms):
+        cfg = w / f"cc_{ms}.cfg"
+        out = w / f"cc_{ms}.ndjson"
+        _cfg(cfg, "CompSpec", "{}", "{}", ms,
+             f"  MaxObjs = 0\n  ClassPaths <- {table}\n  MaxLen = {maxlen}\n"
+             "INVARIANT Transparent\nINVARIANT Bounded\nINVARIANT DictMatchesList\nINVARIANT GotIsRight\n"
+             "INVARIANT ClassOwn\nINVARIANT ClassNoSharing\nINVARIANT ExportComp\n"
+             "PROPERTY Identity\nPROPERTY MissIsFresh\nPROPERTY EvictsLRU\n")
+        r = tlc.require_ok(tlc.run("MC_C18T", str(cfg), env={"OUT": str(out)}, workers=1), f"MC_C18T CompSpec size={ms}")
+        return r, tlc.read_ndjson(out)
+
+    with ThreadPoolExecutor(max_workers=4) as ex:
+        results = list(ex.map(one, sizes))
+    total = 0
+    for ms, (r, rows) in zip(sizes, results):
+        if len(rows) != (nclasses + 1) ** maxlen or any(
+                [e["path"] for e in row["classes"]] != TABLES[table] or row["max"] != ms for row in rows):
+            raise MachineryError(f"export incomplete: {len(rows)} sequences for {nclasses} classes, length {maxlen}")
+        chk.add("states", r.distinct)
+        chk.add("transitions", r.generated)
+        rows.sort(key=lambda row: json.dumps(row["steps"], sort_keys=True))
+        for n, row in enumerate(rows):
+            shared = {}
+            for st in row["steps"]:
+                if st["op"] == "render":
+                    shared.setdefault(row["classes"][st["c"] - 1]["path"], set()).add(st["c"])
+            chk.count(["class-sequence", row], nontrivial=any(len(v) > 1 for v in shared.values()))
+            bad = replay_class_case(row, n)
+            if bad:
+                chk.violation({"kind": "class-sequence", "row": row, "caseno": n}, bad)
+        total += len(rows)
+        if rows:
+            chk.sample({"class_sequence": rows[len(rows) // 3]}, limit=10)
+    chk.add("class_sequences_replayed", total)
+
+
 # ---------------------------------------------------------------- template cache
 def record_template_traces(rnd: random.Random, size, ntraces: int, length: int, via_component: bool):
     """Histories of compile requests through cached_template() (or through rendering
@@ -204,7 +387,7 @@ def record_template_traces(rnd: random.Random, size, ntraces: int, length: int, 
     from django.conf import settings
     from django.template import Context, Template, engines
     import django_components.cache as dcache
-    from django_components import Component, cached_template
+    from django_components import cached_template
 
     class T2(Template):
         pass
@@ -218,12 +401,14 @@ def record_template_traces(rnd: random.Random, size, ntraces: int, length: int, 
             dcache.template_cache = None
             nkeys = rnd.choice([2, 3, 4, 5, 6])
             # key i -> (template string, class, engine)
+            table = None
             if via_component:
-                keyspec = [(f"[k{j}:{{{{ x }}}}]", Template, None) for j in range(nkeys)]
-                comps = []
-                for j, (src, _, _) in enumerate(keyspec):
-                    comps.append(type(f"VfTc{j}", (Component,), {"template": src,
-                                 "get_context_data": lambda self, x=None: {"x": x}}))
+                # class table: template number = class number, import paths shared by several classes; the path names
+                # come from a pool of 6 that is reused by later traces (classes re-defined over time)
+                npaths = rnd.randint(1, max(1, nkeys // 2))
+                table = [{"path": rnd.randint(1, npaths), "src": j + 1} for j in range(nkeys)]
+                comps = make_classes(table, f"r{rnd.randrange(6)}")
+                keyspec = [(class_src(ent["src"]), Template, None) for ent in table]
             else:
                 strings = [f"[s{j}:{{{{ x }}}}]" for j in range(max(2, nkeys // 2 + 1))]
                 keyspec = []
@@ -238,41 +423,28 @@ def record_template_traces(rnd: random.Random, size, ntraces: int, length: int, 
             for _ in range(length):
                 if rnd.random() < 0.04:
                     dcache.get_template_cache().clear()
-                    evs.append({"op": "clear", "fwd": _tc_order(keyspec)})
+                    evs.append({"op": "clear", "fwd": _src_order(table) if via_component else _tc_order(keyspec)})
                     continue
                 k = rnd.randrange(nkeys)
                 src, cls, engine = keyspec[k]
                 x = rnd.randint(0, 99)
                 if via_component:
-                    seen = []
-                    import django_components.component as dcomp
-                    orig = dcomp.cached_template
-
-                    def spy(*a, **kw):
-                        t = orig(*a, **kw)
-                        seen.append(t)
-                        return t
-                    dcomp.cached_template = spy
-                    try:
-                        out = comps[k].render(kwargs={"x": x})
-                    finally:
-                        dcomp.cached_template = orig
-                    if len(seen) != 1:
-                        raise MachineryError(f"expected one cached_template call per render, saw {len(seen)}")
-                    t = seen[0]
-                    import re
-                    out = re.sub(r"<!-- _RENDERED [^>]*-->", "", out)
+                    out, t = render_class(comps[k], x)
                 else:
                     t = cached_template(src, template_cls=cls, engine=engine)
                     out = t.render(Context({"x": x}))
                 keep.append(t)
                 oid = ids.setdefault(id(t), len(ids) + 1)
                 fresh = cls(src, engine=engine).render(Context({"x": x}))
-                evs.append({"op": "compile", "k": k + 1, "obj": oid, "src_ok": t.source == src,
-                            "cls_ok": type(t) is cls,
-                            "eng_ok": (engine is None) or (t.engine is engine),
-                            "out_ok": out == fresh, "fwd": _tc_order(keyspec)})
-            traces.append({"id": i + 1, "events": evs})
+                ev = {"op": "compile", "k": k + 1, "obj": oid, "src_ok": t.source == src,
+                      "cls_ok": type(t) is cls,
+                      "eng_ok": (engine is None) or (t.engine is engine),
+                      "out_ok": out == fresh, "fwd": _tc_order(keyspec)}
+                if via_component:
+                    ev.update({"op": "render", "c": k + 1, "fwd": _src_order(table)})
+                    del ev["k"]
+                evs.append(ev)
+            traces.append({"id": i + 1, "classes": table or [], "events": evs})
     finally:
         settings.COMPONENTS = old
         dcache.template_cache = None
@@ -300,8 +472,8 @@ def template_cache(chk: Check, ntraces: int, length: int) -> None:
     # the abstract machine first: exhaustive over 3 keys, every size
     for ms in [None, 0, 1, 2]:
         cfg = w / f"tc_{ms}.cfg"
-        _cfg(cfg, "TCSpec", "{1,2,3}", "{}", ms,
-             "  MaxObjs = 5\nCONSTRAINT Limit\nINVARIANT Transparent\nINVARIANT Bounded\nINVARIANT DictMatchesList\n"
+        _cfg(cfg, "MCTSpec", "{1,2,3}", "{}", ms,
+             "  MaxObjs = 5\n  ClassPaths <- P11\n  MaxLen = 0\nCONSTRAINT Limit\nINVARIANT Transparent\nINVARIANT Bounded\nINVARIANT DictMatchesList\n"
              "INVARIANT GotIsRight\nPROPERTY Identity\nPROPERTY MissIsFresh\nPROPERTY EvictsLRU\n")
         r = tlc.require_ok(tlc.run("MC_C18T", str(cfg), workers=4), f"MC_C18T size={ms}")
         chk.add("states", r.distinct)
@@ -313,7 +485,8 @@ def template_cache(chk: Check, ntraces: int, length: int) -> None:
             f = w / f"tc_{size}_{via}.ndjson"
             tlc.write_ndjson(f, traces)
             cfg = w / f"tctrace_{size}.cfg"
-            _cfg(cfg, "TrSpec", "{}", "{}", ms, "INVARIANT Transparent\nINVARIANT Bounded\nINVARIANT DictMatchesList\nPROPERTY Identity\n")
+            _cfg(cfg, "TrSpec", "{}", "{}", ms, "INVARIANT Transparent\nINVARIANT Bounded\nINVARIANT DictMatchesList\nINVARIANT GotIsRight\n"
+                 "PROPERTY Identity\n")
             r = tlc.run("Trace_C18T", str(cfg), env={"IN": str(f)}, workers=1)
             if r.violated:
                 chk.violation({"kind": "template-trace-invariant", "size": size, "via_component": via},
@@ -411,14 +584,24 @@ def run(tier: str) -> int:
     file_templates(chk, nseq=12 if quick else 120, length=14 if quick else 30)
     model_check_and_replay(chk, nkeys=3 if quick else 4, nvals=2)
     validate_lru_traces(chk, ntraces=60 if quick else 600, length=60 if quick else 120)
+    component_classes(chk, "P1112", 4)
     template_cache(chk, ntraces=25 if quick else 200, length=40 if quick else 80)
+    if not quick:
+        component_classes(chk, "P11122", 5, sizes=(0, 1, 2, 3, 128))
     chk.cov["exhaustive"] = True
     chk.cov["rule"] = ("every transition of the TLC state graph of LRUCache (all sizes) replayed on the real "
-                       "LRUCache; random histories validated by Trace_C18/Trace_C18T. Non-trivial = source state "
-                       "non-empty or a set; distinct by hash of the case")
+                       "LRUCache; random histories validated by Trace_C18/Trace_C18T; every render/clear sequence "
+                       "(length 4 over 4 classes, 3 of them with one import path; thorough also length 5 over 5 "
+                       "classes) exported by MC_C18T CompSpec and replayed on real factory-made / re-defined "
+                       "classes for every cache size. Non-trivial = source state non-empty or a set / a sequence "
+                       "that renders two classes of one import path; distinct by hash of the case")
     chk.assumptions += ["projection = dict items + forward/backward list walk + sentinels captures all "
                         "behaviour-relevant state of LRUCache",
-                        "template_cache_size=None (documented: unbounded; code: 128) is not exercised as unbounded"]
+                        "template_cache_size=None (documented: unbounded; code: 128) is not exercised as unbounded",
+                        "classes of one class table have pairwise different inline templates (sharing of a cache "
+                        "entry between classes with equal template text is not determined by the property); the "
+                        "LRU order of the component-level cache is compared by template text only",
+                        "component renders use render_dependencies=False (JS/CSS dependency handling is out of scope)"]
     return chk.finish()
 
 
@@ -496,16 +679,35 @@ def selftest(tier: str) -> int:
                 yield
         return both()
 
+    def memo_by_import_path():
+        """Component._get_template remembers the template text per class import path (not per class)."""
+        import django_components.component as dcomp
+        from django.template import Origin
+        from django_components.util.misc import get_import_path
+        orig = dcomp.Component._get_template
+        memo: Dict[str, str] = {}
+
+        def gt(self, context, component_id):
+            path = get_import_path(type(self))
+            src = memo.setdefault(path, self.template)
+            if src is self.template or not isinstance(self.template, str):
+                return orig(self, context, component_id)
+            return dcomp.cached_template(template_string=src, name=self.name,
+                                         origin=Origin(name=path, template_name=self.name))
+        return patch(dcomp.Component, "_get_template", gt)
+
     def body(chk):
         w = workdir("c18st")
         from django_components.util.cache import LRUCache  # noqa
         model_check_and_replay(chk, 3, 2)
         validate_lru_traces(chk, 10, 40)
         template_cache(chk, 6, 30)
+        component_classes(chk, "P1112", 3, sizes=(0, 2))
 
     return run_probes(PID, [("evict-MRU", evict_mru), ("get-does-not-touch", get_no_touch),
                             ("size-off-by-one", off_by_one), ("stale-back-pointer", stale_backpointer),
-                            ("template-key-without-class", key_without_class)], body)
+                            ("template-key-without-class", key_without_class),
+                            ("component-template-memo-by-import-path", memo_by_import_path)], body)
 
 
 def replay(path: str) -> int:
@@ -515,6 +717,10 @@ def replay(path: str) -> int:
     case = d["case"]
     if case.get("kind") == "lru-transition":
         bad = replay_transition(case["row"])
+        print(json.dumps(bad, indent=1, default=repr))
+        return 1 if bad else 0
+    if case.get("kind") == "class-sequence":
+        bad = replay_class_case(case["row"], case["caseno"])
         print(json.dumps(bad, indent=1, default=repr))
         return 1 if bad else 0
     print("replay of trace cases: re-run the check with the same VERIF_SEED")
